@@ -17,18 +17,23 @@ theorem every_syn_is_validated :
     (Srv.filter (· == "labeldef:recvClientSYN")).length = 1 := by decide
 
 /-- **every way out of the server's handshake loop that means success goes through
-    `setN`**: the loop is left by `break` only (returns inside it are error or
-    shutdown paths), and `setN` is the first call after it -/
+    `setN`**: `setN` is called in one place only, the last statement before the
+    function's final return, outside the loop (the returns inside the loop are
+    error or shutdown paths; every other way out of the loop falls through to it) -/
 theorem server_adopts_window_on_every_exit :
-    Srv.reverse.take 3 = ["return", "call:g.setN", "break"] ∧
+    Srv.reverse.take 2 = ["return", "call:g.setN"] ∧
     (Srv.filter (· == "call:g.setN")).length = 1 := by decide
 
+set_option maxRecDepth 8192 in
 /-- the `resent` shortcut (complete on SYNACK / DATA) is taken only after the
     server has restarted its handshake: the flag is tested right where the
     shortcut leaves the loop, and it is not set by the loop's header -/
 theorem resent_shortcut_guarded :
-    ((Srv.drop (Srv.idxOf "cond:resent")).take 4) =
-      ["cond:resent", "call:g.timeoutManager.Received", "break", "label:handshakeLoop"] ∧
+    (((Srv.drop (Srv.idxOf "cond:resent")).take 4) =
+        ["cond:resent", "call:g.timeoutManager.Received", "break", "label:handshakeLoop"] ∨
+     -- the same test written the other way round
+     ((Srv.drop (Srv.idxOf "cond:!resent")).take 5) =
+        ["cond:!resent", "continue", "call:g.timeoutManager.Received", "break", "label:handshakeLoop"]) ∧
     ((Srv.drop (Srv.idxOf "labeldef:handshakeLoop")).take 2) = ["labeldef:handshakeLoop", "for"] ∧
     Srv.contains "forpost" = false := by decide
 
